@@ -978,6 +978,9 @@ impl World {
             all.push(Ev::Stop);
         }
         all.extend(opts);
+        if std::env::var_os("MC_SHOW_OPTIONS").is_some() {
+            self.log.push(Rec::S("options", format!("{all:?}")));
+        }
         let k = self.ch.borrow_mut().choose("step", all.len());
         self.log.choice_pos.set(self.ch.borrow().points.len() as u32);
         let ev = all[k].clone();
